@@ -13,7 +13,7 @@ from __future__ import annotations
 import itertools
 import threading
 
-from lib import e5ref, stuck, vtime, wire
+from lib import e5ref, gen, stuck, vtime, wire
 
 PROPERTY = "C13"
 LEVEL = "exploration"
@@ -78,7 +78,10 @@ class Run:
             o.value = val
             h.status_variables[k] = o
         self.ec = {20: ("I2", -100, 100, 5, "ec_i2", "u"), 21: ("U4", 10, 1000, 50, "ec_u4", "s"), 22: ("F4", -1.5, 2.5, 0.5, "ec_f4", ""),
-                   23: ("U1", None, None, 9, "ec_free", ""), "ec_t": ("U2", 0, 9, 3, "ec_text", "")}
+                   23: ("U1", None, None, 9, "ec_free", ""), "ec_t": ("U2", 0, 9, 3, "ec_text", ""),
+                   # limits that are zero (a limit of 0 is a limit, not "no limit")
+                   24: ("I2", -50, 0, -5, "ec_max0", ""), 25: ("I4", 0, 0, 0, "ec_zero", ""), 26: ("F4", -1.5, 0.0, -0.5, "ec_fmax0", ""),
+                   27: ("I2", 0, 40, 4, "ec_min0", "")}
         for k, (fmt, lo, hi, d, name, unit) in self.ec.items():
             h.equipment_constants[k] = EquipmentConstant(k, name, lo, hi, d, unit, getattr(V, fmt), use_callback=False)
         self.ecval = {k: v[3] for k, v in self.ec.items()}
@@ -90,7 +93,7 @@ class Run:
         self.hist = []
         self.kinds = set()
         self.bad = False
-        self.sysgen = itertools.count(0x50000000 + ctx.rng.randrange(1 << 16) * 512)
+        self.sysgen = gen.system_bytes(ctx.rng, 0x50000000 + ctx.rng.randrange(1 << 16) * 512, p=0.03)
 
     def violation(self, mech, **kw):
         self.ctx.violation(mech, {"history": self.hist[-12:], **kw})
